@@ -4,10 +4,15 @@ Tie: as C02 (ordered answers where the order is defined).  Search: stores with m
 matches than the limit; limits 0, 1, n, max, max+1, null; the answer must have at most min(n, max_limit)
 events, no omitted strict match may be newer than a sent event, and a limit not smaller than the number
 of matches truncates nothing.
+Multi-filter REQs on LMDB (one plan per filter, all made by ONE planner call and run by the real executor):
+every filter is judged against its OWN limit — at most min(n_i, max_limit) events for filter i, not fewer
+than that when enough events match it, the newest ones — and the limit of the plan made for filter i inside
+the REQ is compared with the model's plan for filter i.
 """
 import random
 
-from lib import common, gen, qscen
+from lib import common, gen, qscen, spec
+from lib.kvimpl import model_filter
 
 THEOREMS_TIED = ["C12_kv_count", "C12_kv_prefix", "C12_kv_no_truncation", "C12_kv_cap", "C12_kv_at_most_max", "C12_kv_single_kind_newest_first", "C12_kv_single_kind_limit_keeps_newest", "C12_sql_limit",
                  "C12_sql_no_truncation", "C12_sql_limit_zero"]
@@ -147,6 +152,180 @@ def record(report, rec):
             report.count("kv_index_" + str(rec["index"]))
 
 
+# ---------------------------------------------------------------------------------------------
+# multi-filter REQs on LMDB: one limit per filter
+# ---------------------------------------------------------------------------------------------
+# A REQ is a list of filters and each filter carries its own limit; the planner turns the list into one plan per filter in a
+# single call, so whatever that call keeps from one filter to the next (a variable, a cache, a shared object) can leak one
+# filter's limit into its neighbours'.  Single-filter REQs never see that.  The filters used here name ONE kind, ONE author, or
+# one author and one kind: for these plans the LMDB scan is newest-first over the whole answer (C12_kv_single_kind_* /
+# C12_kv_single_author* theorems), so the property can be stated per filter in full — count, no truncation below the limit,
+# newest — without running into the open per-value-order / MultiIndex classes.
+
+MULTI_KINDS = [1, 7, 4]
+MULTI_AUTHORS = gen.AUTHORS[2:4]
+# pairs (limit of one filter, limit of the next one): small/large in both orders, absent and null (= "the maximum") next to a
+# small one, zero next to a positive one, above max_limit next to a small one, both sides of max_limit
+SMALL = [1, 2, 3, 5]
+LARGE = [common.MAX_LIMIT - 1, common.MAX_LIMIT, common.MAX_LIMIT + 1, 10 ** 6, None, "absent"]
+
+
+def multi_store(rng):
+    """A store in which one single-value filter can have far more matches than max_limit and another one fewer: sizes are
+    chosen against max_limit (the only bound the property itself names), up to more than three times it, so that 'the cap of
+    filter i' and 'the limit of filter j' are distinguishable whatever their order."""
+    n = rng.choice([6, common.MAX_LIMIT + 4, 2 * common.MAX_LIMIT + 5, 3 * common.MAX_LIMIT + 6])
+    # mostly distinct timestamps (so that "the newest k" is one definite set), some shared
+    pool = rng.sample(range(0, 4 * n), n) + [0, 1, 1, 2, 255, 256]
+    evs = []
+    for i in range(n):
+        e = gen.gen_event(rng, authors=MULTI_AUTHORS, kinds=[1, 1, 1, 7, 7, 4], times=[gen.T0 + rng.choice(pool)])
+        while any(x["id"] == e["id"] for x in evs):
+            e["id"] = gen.mkid(rng)
+        e["tags"] = [["t", rng.choice(["a", "b"])]]
+        evs.append(e)
+    return evs
+
+
+def gen_multi_filter(rng, evs):
+    shape = rng.choice(["kind", "kind", "kind", "author", "author", "author+kind"])
+    f = {}
+    if shape in ("kind", "author+kind"):
+        f["kinds"] = [rng.choice(MULTI_KINDS)]
+    if shape in ("author", "author+kind"):
+        f["authors"] = [rng.choice(MULTI_AUTHORS)]
+    if rng.random() < 0.15:
+        f["since"] = rng.choice(evs)["created_at"]
+    if rng.random() < 0.15:
+        f["until"] = rng.choice(evs)["created_at"] + rng.choice([0, 1])
+    return f
+
+
+def gen_multi_req(rng, evs):
+    """2-5 filters (the planner plans at most five), neighbouring filters with different limits"""
+    k = rng.choice([2, 2, 2, 3, 3, 4, 5])
+    fs = [gen_multi_filter(rng, evs) for _ in range(k)]
+    a, b = rng.choice(SMALL + [0]), rng.choice(LARGE + SMALL)
+    while a == b:
+        b = rng.choice(LARGE + SMALL)
+    lims = [a, b] if rng.random() < 0.5 else [b, a]
+    while len(lims) < k:
+        lims.append(rng.choice([x for x in LIMITS if x != lims[-1]]))
+    for f, lim in zip(fs, lims):
+        if lim != "absent":
+            f["limit"] = lim
+    return fs
+
+
+def run_req_kv(scen, qs):
+    """the whole REQ through the real `executor` (ONE planner call for all filters, then one execute_one_plan per plan on a
+    pool, as LMDBStorage.run_query does): [(plan limit, index name, ids in the order delivered)] per plan"""
+    import asyncio
+    import concurrent.futures
+    import logging
+
+    impl = scen.kv.impl
+
+    async def go():
+        out = []
+        with concurrent.futures.ThreadPoolExecutor(max_workers=1) as pool:
+            async for plan, events in impl.kv.executor(impl.env, [q.model_copy(deep=True) for q in qs], pool,
+                                                       log=logging.getLogger("nostr_relay.verif.kvq"),
+                                                       loop=asyncio.get_running_loop()):
+                out.append((plan.limit, impl.index_name(plan), [e.id for e in events]))
+        return out
+
+    loop = asyncio.new_event_loop()
+    try:
+        return loop.run_until_complete(go())
+    finally:
+        loop.close()
+
+
+def kv_multi_limits(report, scen, fs):
+    """one multi-filter REQ on the loaded LMDB store; every filter judged on its own"""
+    qs = [scen.kv.validate(f) for f in fs]
+    if any(q is None for q in qs) or not all(spec.is_wellformed_conjunction(q) for q in qs):
+        return
+    payload = {"backend": "kv", "multi": True, "filters": fs, "events": scen.events}
+    try:
+        answers = run_req_kv(scen, qs)
+    except Exception as e:
+        report.property_failure("the LMDB executor raised %r on the multi-filter REQ %r" % (e,), payload, None)
+        return
+    if len(answers) != len(fs):
+        # every filter here names an indexed field and there are at most five: each one has to be answered
+        report.property_failure("kv: the REQ %r of %d answerable filters got %d answers: a filter is sent nothing although events "
+                                "may match it" % (fs, len(fs), len(answers)), payload, None)
+        return
+    stored = scen.kv_stored
+    ts = {i: scen.by_id[i]["created_at"] for i in stored if i in scen.by_id}
+    # the model, filter by filter (the model of the planner is `planFilter` mapped over the filters of the REQ)
+    model = [None] * len(fs)
+    if scen.kv.in_model:
+        mfs = [model_filter(q) for q in qs]
+        if all(m is not None for m in mfs):
+            lines = []
+            for m in mfs:
+                lines += [{"op": "kv.plan", "filter": m, "default_limit": None, "max_limit": common.MAX_LIMIT},
+                          {"op": "kv.exec", "filter": m, "default_limit": None, "max_limit": common.MAX_LIMIT},
+                          {"op": "kv.spec", "filter": m}]
+            out = scen.drv.batch(lines)
+            model = [tuple(out[3 * i:3 * i + 3]) for i in range(len(fs))]
+    truncating = 0
+    distinct_limits = len({repr(requested_limit(q)) for q in qs})
+    for i, (f, q, (plim, index, got)) in enumerate(zip(fs, qs, answers)):
+        strict = {x for x in stored if x in scen.by_id and spec.matches(q, scen.by_id[x], True)}
+        incl = {x for x in stored if x in scen.by_id and spec.matches(q, scen.by_id[x], False)}
+        allowed = requested_limit(q)
+        if model[i] is not None:
+            mplan, mexec, mspec = model[i]
+            if sorted(mspec["strict"]) != sorted(strict) or sorted(mspec["incl"]) != sorted(incl):
+                raise common.MachineryBroken("Lean matchesSpec and the Python reference disagree on %r" % (f,))
+            # correspondence: the plan made for filter i INSIDE the REQ is the model's plan for filter i
+            if mplan is None or mplan["index"] != index or mplan["limit"] != plim:
+                report.correspondence_break("kv.planner", dict(payload, filter_index=i), [index, plim],
+                                            None if mplan is None else [mplan["index"], mplan["limit"]])
+            elif not mexec["unordered"] and got != mexec["ids"]:
+                report.correspondence_break("kv.planner/scanner/execute_one_plan", dict(payload, filter_index=i),
+                                            {"index": index, "ids": got}, {"index": mplan["index"], "ids": mexec["ids"]})
+        where = "kv(%s): filter %d %r of the REQ %r" % (index, i, f, fs)
+        if len(got) != len(set(got)):
+            report.property_failure("%s is sent an event twice" % where, payload, None)
+        elif len(got) > allowed:
+            # never more than the filter's own limit (and never more than max_limit)
+            report.property_failure("%s is sent %d events, its limit allows at most %d" % (where, len(got), allowed), payload, None)
+        elif len(got) < min(allowed, len(strict)):
+            # not truncated below its own limit: `allowed` or every match, whichever is smaller
+            report.property_failure("%s is sent %d events although %d match and its limit allows %d"
+                                    % (where, len(got), len(strict), allowed), payload, None)
+        elif got:
+            # the newest: nothing left out is newer than something sent
+            oldest_sent = min(ts[x] for x in got if x in ts) if any(x in ts for x in got) else None
+            newer = [x for x in strict - set(got) if oldest_sent is not None and ts[x] > oldest_sent]
+            if newer:
+                report.property_failure("%s: %d matching event(s) left out although newer than the oldest sent one"
+                                        % (where, len(newer)), payload, None)
+        if len(strict) > allowed:
+            truncating += 1
+            report.count("kv_multi_filters_truncated_by_own_limit")
+        report.count("kv_multi_filters")
+    def lim_class(f):
+        return "open" if f.get("limit", None) is None else "zero" if f["limit"] == 0 else "small" if f["limit"] <= 5 else "large"
+    for f, g in zip(fs, fs[1:]):
+        report.count("kv_multi_limit_%s_then_%s" % (lim_class(f), lim_class(g)))
+    report.case(("kv-multi", repr(fs), len(scen.events)), nontrivial=truncating > 0 and distinct_limits > 1,
+                sample={"backend": "kv", "filters": fs, "returned": [len(a[2]) for a in answers], "stored": len(stored)})
+    report.count("kv_multi_filter_reqs")
+
+
+def run_multi_case(report, scen, rng, reqs):
+    evs = multi_store(rng)
+    scen.load(evs)
+    for k in range(reqs):
+        kv_multi_limits(report, scen, gen_multi_req(rng, evs))
+
+
 def run_case(report, scen, rng):
     evs = dense_store(rng)
     scen.load(evs)
@@ -168,6 +347,9 @@ def run_case(report, scen, rng):
 
 def replay_one(report, scen, r):
     scen.load(r["events"])
+    if r.get("multi"):
+        kv_multi_limits(report, scen, r["filters"])
+        return
     rec = scen.ask_kv(r["filters"][0]) if r["backend"] == "kv" else scen.ask_sql(r["filters"])
     oracle(report, scen, rec)
     record(report, rec)
@@ -181,13 +363,20 @@ def run(report, tier, seed):
         "dense stores of 3/8/19/20/21/27 events (max_limit configured as %d) over 2 authors, kinds 1/7, tags t=a/b, "
         "shared and distinct timestamps x filters of every planner shape (incl. lookups of 2-12 stored ids) x limits 0,1,2,3,5,max-1,max,max+1,10^6,null,"
         "absent; LMDB single plan per filter, SQL single- and two-filter REQs; non-trivial = something was sent or "
-        "truncated" % common.MAX_LIMIT)
+        "truncated; LMDB multi-filter REQs (2-5 filters, each ONE kind / ONE author / one author+kind, optional since/until) through one "
+        "planner call + the real executor over stores of 6 / max+4 / 2*max+5 / 3*max+6 events, neighbouring filters with different "
+        "limits (small, 0, max-1, max, max+1, 10^6, null, absent in both orders): per filter at most min(n_i, max_limit), not fewer "
+        "when enough match, the newest; plan limit and answer of every filter compared with the model; non-trivial = at least one "
+        "filter truncated by its own limit and at least two different limits in the REQ" % common.MAX_LIMIT)
     report.assumptions += ["Config.max_limit is set to %d by the harness before the storage modules are imported" % common.MAX_LIMIT]
     try:
         for e in report.known:
             replay_one(report, scen, common.load_finding_replay(e))
         for i in range(40 if tier == "quick" else 800):
             run_case(report, scen, rng)
+        # after the single-filter cases, so that those are the same cases as before for a given seed
+        for i in range(16 if tier == "quick" else 300):
+            run_multi_case(report, scen, rng, reqs=10 if tier == "quick" else 16)
     finally:
         scen.close()
         drv.close()
